@@ -4,6 +4,7 @@ import (
 	"context"
 	"errors"
 	"fmt"
+	"os"
 	"regexp"
 	"runtime/debug"
 	"sort"
@@ -415,6 +416,7 @@ func runPlan(t *testing.T, plan *Plan, body func(e *Env)) (out *Outcome) {
 			Schedule:    plan.Schedule,
 			StallAfter:  time.Duration(plan.Cfg.StallS) * time.Second,
 			MaxSimTime:  1000 * 24 * time.Hour,
+			Fine:        plan.Cfg.Fine,
 		}
 		if cfg.MaxSteps == 0 {
 			cfg.MaxSteps = 400000
@@ -447,11 +449,22 @@ func runPlan(t *testing.T, plan *Plan, body func(e *Env)) (out *Outcome) {
 		out.Commits = len(e.commits)
 		out.Schedule = append([]int(nil), e.sim.Choices...)
 		out.Unseeded = e.sim.NativeRanges
+		if e.sim.FineYields > 0 {
+			out.Probes["fine-grained-run"]++
+			out.Probes["fine-yields"] += e.sim.FineYields
+		}
 		out.TraceHash = traceHash(e.sim.Trace)
+		if traceDump {
+			for _, s := range e.sim.Trace {
+				out.Trace = append(out.Trace, fmt.Sprintf("%d@%s", s.Task, s.Site))
+			}
+		}
 		out.LogHash = logHash(out.Log)
 	})
 	return out
 }
+
+var traceDump = os.Getenv("VERIF_DUMP") == "trace"
 
 var oidRe = regexp.MustCompile(`\{"\$oid":"[0-9a-f]{24}"\}|0x[0-9a-f]{8,12}`)
 
@@ -478,8 +491,12 @@ func traceHash(tr []simrt.Step) uint64 {
 		site := s.Site
 		if strings.HasPrefix(site, "wake") {
 			// which ready case of a select fired is the one choice the runtime makes (DESIGN 3.6)
+			// (clause index and clause line are dropped, the file stays)
 			if i := strings.Index(site, ":"); i > 0 {
 				site = "wake" + site[i:]
+				if j := strings.LastIndex(site, ":"); j > 4 {
+					site = site[:j]
+				}
 			}
 		}
 		fmt.Fprintf(&sb, "%d@%s;", s.Task, site)
